@@ -2,6 +2,7 @@ package main
 
 import (
 	"go/ast"
+	"os"
 	"go/token"
 	"regexp"
 	"strings"
@@ -142,7 +143,23 @@ func walkStmt(s ast.Stmt, depth int, out *[]ev) {
 	}
 }
 
+// events: the function's event list with the bodies of the package's own unexported helpers spliced in (see
+// inlEvents); rawEvents is the function body alone.
 func events(fn *ast.FuncDecl) []ev {
+	if os.Getenv("VERIF_NO_INLINE") != "" {
+		return rawEvents(fn)
+	}
+	for dir, p := range pkgs {
+		for _, f := range p.funcs {
+			if f == fn {
+				return inlEvents(dir, fn, 2, map[*ast.FuncDecl]bool{fn: true})
+			}
+		}
+	}
+	return rawEvents(fn)
+}
+
+func rawEvents(fn *ast.FuncDecl) []ev {
 	var out []ev
 	if fn == nil || fn.Body == nil {
 		return nil
@@ -310,7 +327,7 @@ func eventsInl(dir string, fn *ast.FuncDecl) []ev {
 }
 
 func inlEvents(dir string, fn *ast.FuncDecl, fuel int, busy map[*ast.FuncDecl]bool) []ev {
-	base := events(fn)
+	base := rawEvents(fn)
 	p := pkgs[dir]
 	if p == nil || fn == nil || fuel == 0 {
 		return base
